@@ -211,9 +211,11 @@ def r2_scientific(ctx):
 
 
 from .c12_cards import r3_card_grid  # noqa: E402
+from .c12_parse import r4_parse_back  # noqa: E402
 
 RULES = [
     ("C12-R3", r3_card_grid, 10),
+    ("C12-R4", r4_parse_back, 10),
     ("C12-R1", r1_ladder, 140),
     ("C12-R1b", r1b_integer_arm, 8),
     ("C12-R2", r2_scientific, 120),
